@@ -3,8 +3,9 @@ import opscheck
 import opsdrive
 
 POS = ["C11_Linear", "C11_Arithmetic", "C11_Harmonic", "C11_Upwind", "C11_UpwindRepeat", "C11_Geometric", "C11_Between",
-       "C11_Ordering", "C11_Constants", "C11_LinearExact"]
-ARB = ["C11_Linear", "C11_Arithmetic", "C11_Upwind", "C11_UpwindRepeat", "C11_Constants", "C11_LinearExact"]
+       "C11_Ordering", "C11_Constants", "C11_LinearExact", "C11_Homogeneous", "C11_InputForms"]
+ARB = ["C11_Linear", "C11_Arithmetic", "C11_Upwind", "C11_UpwindRepeat", "C11_Constants", "C11_LinearExact",
+       "C11_InputForms"]
 ZER = ["C11_Linear", "C11_Arithmetic", "C11_Harmonic", "C11_Upwind"]
 
 
